@@ -28,6 +28,8 @@ def run(ctx):
                     "stub model of scipy.integrate.LSODA"]
     ctx.rule("C05.args", "every numeric argument of core.derivatives has homogeneity degree 0 in the velocity gradient (dislocation-type regimes)")
     ctx.rule("C05.rhs", "rhs blocks [dF | dA | df] each have degree exactly 1 in the velocity gradient")
+    ctx.rule("C05.guards", "every data-dependent branch condition evaluated in eval_rhs compares quantities of equal homogeneity degree in the velocity "
+                           "gradient (or tests against exactly zero): no absolute rate/time threshold")
     ctx.rule("C05.knobs", "first_step has degree 1 in the time span and 0 in rate; rtol constant; atol free of time and rate symbols")
     mloc = ctx.program.loc(ctx.program.module("pydrex.minerals"), ctx.program.require_method("pydrex.minerals.Mineral", "update_orientations")) + " (update_orientations)"
     for regime in ("matrix_dislocation", "frictional_yielding"):
@@ -39,6 +41,7 @@ def run(ctx):
                 continue
             analyse(ctx, R, tag, mloc)
     ctx.floor("C05.rhs", 12)
+    ctx.floor("C05.guards", 4)
     ctx.floor("C05.args", 4)
 
 
@@ -75,6 +78,47 @@ def analyse(ctx, R, tag, loc):
     for name, blk in blocks.items():
         degs = {driver.degree(alg.unfold_all(lift(c)), base) for c in blk}
         ctx.ob("C05.rhs", f"{tag}:{name}", degs == {Fr(1)}, f"degrees of the {name} block in L: {sorted(map(str, degs))}", loc)
+    # guards met while interpreting eval_rhs
+    from ..values import Guard
+    seen = set()
+
+    def cmp_leaves(g, acc):
+        if isinstance(g, Guard):
+            if g.kind == "cmp":
+                acc.append(g)
+            else:
+                for a in g.args:
+                    cmp_leaves(a, acc)
+        elif isinstance(g, (tuple, list)):
+            for a in g:
+                cmp_leaves(a, acc)
+    n_g = 0
+    for g, outcome, gloc, fn in R.I.guards:
+        if not fn.endswith("eval_rhs"):
+            continue
+        leaves = []
+        cmp_leaves(g, leaves)
+        for lf in leaves:
+            op, a, b = lf.args[0], lf.args[1], lf.args[2]
+            if op == "between":
+                lo, hi = b
+                sides = [(a, lo), (a, hi)]
+            else:
+                sides = [(a, b)]
+            for x, y in sides:
+                if not isinstance(x, E) or not isinstance(y, E):
+                    continue
+                k = (gloc, x.key(), y.key())
+                if k in seen:
+                    continue
+                seen.add(k)
+                n_g += 1
+                dx, dy = driver.degree(alg.unfold_all(x), base), driver.degree(alg.unfold_all(y), base)
+                ok = (y.is_zero() or x.is_zero()) or (dx is not None and dx == dy)
+                ctx.ob("C05.guards", f"{tag}:eval_rhs:{op}@{gloc.split(':')[-1]}", ok,
+                       f"branch condition compares a quantity of degree {dx} in the velocity gradient with one of degree {dy} "
+                       f"({short(x, 60)} {op} {short(y, 40)}): an absolute threshold makes the texture depend on the strain rate", gloc,
+                       key=("C05.guards", tag, gloc, op))
     s = R.solver
     kw = s.attrs["kwargs"]
     (ta,) = alg.atoms_of(R.t0)
